@@ -18,8 +18,9 @@ def run(ctx):
         rnd.shuffle(c2); rnd.shuffle(c1)
         seg = [c for c in c2 if c[0].startswith("single-seg")]
         zt = [c for c in c1 if c[0].startswith("zerotail")]
+        core = [c for c in c1 if c[0].startswith("thrcore")]
         c2, c1 = seg + [c for c in c2 if not c[0].startswith("single-seg")][:350 - len(seg)], \
-            zt[:60] + [c for c in c1 if not c[0].startswith("zerotail")][:350 - min(60, len(zt))]
+            core + zt[:60] + [c for c in c1 if not c[0].startswith(("zerotail", "thrcore"))][:350 - min(60, len(zt))]
     else:
         c2 = gen.gen_pm2(rnd, False); c1 = gen.gen_pm1(rnd, False)
     for (tag, line, variant, g) in c2:
@@ -30,7 +31,7 @@ def run(ctx):
     res = rtcheck.roundtrip(ctx, PID, cases,
         "pm2: outputs reaching each table-rebuild point (1,2,4,8 KiB, then every 4 KiB) exactly at a literal and in the middle of a copy "
         "at every split, all history-position / copy-length / distance classes at both ends, single-code tables at the start and for a whole segment after varied data (one kind of copy from one re-read point to the next), 16 table variants; "
-        "pm1: every start header 0..31, output positions around every distance-width threshold +-1, block lengths 1..216 (+1), copy "
+        "pm1: every start header 0..31, output positions around every distance-width threshold +-1 (quick tier: every distance class at exactly T-1 and T for all twelve thresholds; thorough: T-8..T+8), block lengths 1..216 (+1), copy "
         "length class boundaries; streams from the extracted spec serialisers; C output must equal the spec expansion; model compared. "
         "non-trivial = distinct case with output")
     return res
